@@ -6,9 +6,11 @@ Case lines of Model.Framing.run_case:
                          KafkaCodec.get_response_correlation_id (raises on a frame shorter than 4 bytes)
                          trace per chunk: 0, per packet handed to stringReceived 1 <lp packet>,
                          then 2 (normal end) | 3 (lengthLimitExceeded -> loseConnection) | 4 (exception left dataReceived)
-    2 <events>           the real KafkaBootstrapProtocol; events 1 <lp request> | 2 <lp chunk> | 3 (connectionLost)
+    2 <events>           the real KafkaBootstrapProtocol; events 1 <lp request> | 2 <lp chunk> | 3 (connectionLost) |
+                         4 h (.cancel() of the h-th Deferred request() returned: what KafkaClient's addTimeout does)
                          trace per event: 0, then 1 h <lp request> (sendString) | 2 h 1 <lp frame> (Deferred h succeeded) |
-                         2 h 2 (Deferred h failed with the loss reason) | 3 (loseConnection) | 4 kind (raised)
+                         2 h 2 (Deferred h failed with the loss reason) | 2 h 3 (CancelledError) | 3 (loseConnection) |
+                         4 kind (raised)
     3 <lp body>          sendString(body): the bytes written
 """
 import struct
@@ -111,8 +113,11 @@ def impl_send(body):
 
 
 # ------------------------------------------------------------------ op 2: bootstrap protocol
-def impl_bootstrap(events):
-    """events: ("req", bytes) | ("data", bytes) | ("lost",).  returns (trace, per-event outputs, requests per handle)"""
+def impl_bootstrap(events, hooks=None):
+    """events: ("req", bytes) | ("data", bytes) | ("lost",) | ("cancel", h).  returns (trace, per-event outputs,
+    requests per handle).  hooks: handle -> request bytes: when the Deferred of that handle FAILS, its errback
+    calls protocol.request(bytes) re-entrantly (e.g. from inside connectionLost's loop); the new Deferred gets the next
+    handle.  Hooked histories are only monitored, not compared with the model."""
     from afkak._protocol import KafkaBootstrapProtocol
     from twisted.internet.error import ConnectionLost
     from twisted.python.failure import Failure
@@ -121,14 +126,26 @@ def impl_bootstrap(events):
     p.makeConnection(Transport(log))
     reason = Failure(ConnectionLost("sim"))
     reqs = []
+    handles = []
     trace, per_event = [], []
+    hooks = hooks or {}
+    from twisted.internet.defer import CancelledError
 
     def watch(d, h):
         def cb(r):
             log.append(("def", h, 1, bytes(r)) if isinstance(r, bytes) else ("def", h, 99, None))
 
         def eb(f):
-            log.append(("def", h, 2, None) if f is reason else ("def", h, 99, None))
+            log.append(("def", h, 2, None) if f is reason else (("def", h, 3, None) if f.check(CancelledError) else ("def", h, 99, None)))
+            if h in hooks:          # user errback that issues another request at once
+                try:
+                    d2 = p.request(bytes(hooks[h]))
+                    h2 = len(reqs)
+                    reqs.append(bytes(hooks[h]))
+                    handles.append(d2)
+                    watch(d2, h2)
+                except Exception:
+                    log.append(("raised", 99))
         d.addCallbacks(cb, eb)
 
     for ev in events:
@@ -139,9 +156,13 @@ def impl_bootstrap(events):
                 d = p.request(bytes(ev[1]))
                 h = len(reqs)
                 reqs.append(bytes(ev[1]))
+                handles.append(d)
                 watch(d, h)
             elif k == "data":
                 p.dataReceived(bytes(ev[1]))
+            elif k == "cancel":
+                if 0 <= ev[1] < len(handles):
+                    handles[ev[1]].cancel()
             else:
                 p.connectionLost(reason)
         except AssertionError:
@@ -190,6 +211,8 @@ def case_bootstrap(events):
             c += [1] + lp(ev[1])
         elif ev[0] == "data":
             c += [2] + lp(ev[1])
+        elif ev[0] == "cancel":
+            c += [4, ev[1]]
         else:
             c.append(3)
     return c
@@ -261,9 +284,14 @@ def gen_receiver_case(rnd):
 def gen_bootstrap_case(rnd):
     events, ids, wire = [], [], b""
     nxt = rnd.choice([1, 7, 2 ** 31 - 2, -5])
+    nreq = 0
     for _ in range(rnd.randint(1, 14)):
         r = rnd.random()
+        if r < 0.12 and nreq:
+            events.append(("cancel", rnd.randint(0, nreq)))      # a timed-out request; its late response may still come
+            continue
         if r < 0.35:
+            nreq += 1
             if ids and rnd.random() < 0.1:
                 cid = rnd.choice(ids)            # duplicate id: AssertionError while it is pending
             else:
@@ -347,6 +375,20 @@ def monitor_bootstrap(events, per_event, reqs):
                     bad.append(("C06_bootstrap_pairing", "Deferred %d got a frame whose id bytes are not request[4:8]" % h))
         if ev[0] == "lost":
             lost = True
+    # no crosstalk: a frame carrying the id of a cancelled, not yet answered request must not drop the connection
+    cancelled_open = {}
+    for ev, outs in zip(events, per_event):
+        for o in outs:
+            if o[0] == "def" and o[2] == 3 and o[1] < len(reqs):
+                cancelled_open[reqs[o[1]][4:8]] = o[1]
+        if ev[0] == "lost":
+            cancelled_open = {}
+        if ev[0] == "data" and len(ev[1]) >= 8:
+            ln = struct.unpack(">I", ev[1][:4])[0]
+            if ln + 4 == len(ev[1]) and ev[1][4:8] in cancelled_open:      # one whole frame for a cancelled request
+                del cancelled_open[ev[1][4:8]]
+                if ("lose",) in outs:
+                    bad.append(("C06_bootstrap_no_crosstalk", "the late response to a cancelled request dropped the connection"))
     if lost:
         left = [h for h in range(len(reqs)) if h not in fired]
         if left:
